@@ -123,6 +123,7 @@ pub fn run(seed: u64, runs: u64) -> i32 {
         cfg.lenient_bank = true; // cw-multi-test's bank
         cfg.colls.retain(|c| !c.sloppy);
         cfg.sloppy20 = false;
+        cfg.contract_trader = false;
         let mut exec = match Exec::new(&cfg, false) {
             Ok(e) => e,
             Err(e) => {
